@@ -199,6 +199,10 @@ func (c *c09Case) scenario() *Scenario {
 		sc.Driver = append(sc.Driver, Step{Op: "shutdown", Ms: c.ms(), Tag: "op"})
 	}
 	sc.Driver = append(sc.Driver, Step{Op: "sleep", Ms: 30})
+	if c.DelayOf >= 0 && c.DelayMs > 2000 {
+		// stay until the withheld notification has been delivered: handling it late must not hurt the emulator
+		sc.Driver = append(sc.Driver, Step{Op: "sleep", Ms: c.DelayMs - 1700}, Step{Op: "state", Tag: "after-late-notification"})
+	}
 	return sc
 }
 
